@@ -75,8 +75,10 @@ var gCheckRange = guardRef{"boc:BitString.checkRange", "(n>=*s.cap)"}
 var gSizeLo = guardRef{"boc:parseBocHeader", "(φsizeBytes<1)"}
 var gSizeHi = guardRef{"boc:parseBocHeader", "(φsizeBytes>4)"}
 var gCells = guardRef{"boc:parseBocHeader", "(boc.readNBytesUIntFromArray()>len(_[_:]))"}
-var gPruned = guardRef{"boc:newImmutableCell", "(*c.bits.len<(8*(2+_)))"}
-var gCellLen = guardRef{"boc:deserializeCellData", "(len(φcellData)<((_+_)+(referenceIndexSize*_)))"}
+
+// (stated as what is compared: bits.len against 8*(2+34*offset) = 16 + 272*offset)
+var gPruned = guardRef{"boc:newImmutableCell", "lin:1,-272;-16"}
+var gCellLen = guardRef{"boc:deserializeCellData", "(len(φcellData)<(…+(referenceIndexSize*_)))"}
 var gImportDepth = guardRef{"boc:bagOfCells.importCell", "(depth>1024)"}
 var gParseDepth = guardRef{"boc:DeserializeBoc", "(*make[φi]>1024)"}
 
@@ -113,14 +115,14 @@ var excC07 = map[string]excEntry{
 	"boc.newImmutableCell P2 index *&complit.hashes[((_-_)-1)]":                                                         {"taken only when hashIndex > offset, i.e. at least one hash was appended before", nil},
 	"boc.newImmutableCell P4 make []*github.com/tonkeeper/tongo/boc.immutableCell len=0 cap=boc.Cell.RefsSize()":        {"RefsSize counts the non-nil entries of a [4]*Cell array", nil},
 	// ---- cell parser
-	"boc.deserializeCellData P2 slice φcellData[0:((_>>1)+(_%2))]":                                                                                                                      {"guard len(cellData) >= dataBytesSize + referenceIndexSize*refNum with referenceIndexSize = header.sizeBytes in 1..4 and refNum = d1%8 >= 0", []guardRef{gCellLen, gSizeLo}},
-	"boc.deserializeCellData P2 slice φcellData[((_>>1)+(_%2)):]":                                                                                                                       {"same guard", []guardRef{gCellLen, gSizeLo}},
+	// (pattern: the data part cellData[0:n] and the rest cellData[n:], n = ceil(d2/2) however it is spelt)
+	`re:^boc\.deserializeCellData P2 slice φ\w*\[(0:)?\([^\]]*\):?\]$`:                                                                                                                  {"guard len(cellData) >= dataBytesSize + referenceIndexSize*refNum with referenceIndexSize = header.sizeBytes in 1..4 and refNum = d1%8 >= 0", []guardRef{gCellLen, gSizeLo}},
 	"boc.deserializeCellData P2 slice φcellData[referenceIndexSize:] @ boc.DeserializeBoc call(φcellsData,*boc.parseBocHeader()#0.sizeBytes)":                                           {"consuming loop over refNum references under the same guard; referenceIndexSize validated 1..4 by parseBocHeader", []guardRef{gCellLen, gSizeLo, gSizeHi}},
 	"boc.readNBytesUIntFromArray P2 index arr[φi] @ boc.deserializeCellData call(referenceIndexSize,φcellData) @ boc.DeserializeBoc call(φcellsData,*boc.parseBocHeader()#0.sizeBytes)": {"same consuming loop", []guardRef{gCellLen, gSizeLo}},
-	"boc.DeserializeBoc P2 index φrefsArray[φi]":                                                                                                                                        {"refsArray receives exactly one append per iteration of the first loop (cellCount iterations, early exits leave the function), so len(refsArray) = cellCount > i", nil},
-	"boc.DeserializeBoc P2 index make[φi]":                                                                                                                                              {"depths has len(cellsArray) = cellCount elements by the same append-count argument", nil},
-	"boc.DeserializeBoc P4 make []*github.com/tonkeeper/tongo/boc.Cell len=0 cap=*boc.parseBocHeader()#0.cellCount":                                                                     {"parseBocHeader rejects cellCount > remaining input length", []guardRef{gCells}},
-	"boc.DeserializeBoc P4 make [][]int len=0 cap=*boc.parseBocHeader()#0.cellCount":                                                                                                    {"parseBocHeader rejects cellCount > remaining input length", []guardRef{gCells}},
+	"boc.DeserializeBoc P2 index φrefsArray[φi]": {"refsArray receives exactly one append per iteration of the first loop (cellCount iterations, early exits leave the function), so len(refsArray) = cellCount > i", nil},
+	"boc.DeserializeBoc P2 index make[φi]":       {"depths has len(cellsArray) = cellCount elements by the same append-count argument", nil},
+	"boc.DeserializeBoc P4 make []*github.com/tonkeeper/tongo/boc.Cell len=0 cap=*boc.parseBocHeader()#0.cellCount": {"parseBocHeader rejects cellCount > remaining input length", []guardRef{gCells}},
+	"boc.DeserializeBoc P4 make [][]int len=0 cap=*boc.parseBocHeader()#0.cellCount":                                {"parseBocHeader rejects cellCount > remaining input length", []guardRef{gCells}},
 }
 
 var excC07P5 = map[string]excEntry{
